@@ -159,35 +159,59 @@ Entry(as, a)   == as[CHOOSE i \in 1..Len(as) : as[i].l = a]
 RootOnly(gw, gi, ri) == [rk |-> "{}", sel |-> "ALL", cont |-> FALSE, recv |-> "r1", gby |-> "g", gw |-> gw, gi |-> gi, ri |-> ri, mute |-> << >>, active |-> << >>]
 \* the delivery targets of the alerts: <<alert, group key, integration of the group's receiver>>
 EligDom == UNION {UNION {{<<a, gk, i>> : i \in IntegsOf(gk)} : gk \in GKeys(a)} : a \in Alerts}
-ObsInit == /\ now = 0 /\ cfg = [root |-> RootOnly(0, 1, 1), routes |-> << >>, integs |-> <<[recv |-> "r1", name |-> "webhook/0", sr |-> TRUE]>>, inhibit |-> FALSE, windows |-> << >>, wait |-> 0, maxwait |-> 0]
-           /\ ver = << >> /\ sil = << >> /\ last = << >> /\ brk = << >> /\ fl = << >> /\ cancd = [seen |-> {}, dead |-> << >>, deadgk |-> {}, refl |-> {}, ing |-> << >>, mby |-> << >>]
+ObsInit == /\ now = 0 /\ cfg = [root |-> RootOnly(0, 1, 1), routes |-> << >>, integs |-> <<[recv |-> "r1", name |-> "webhook/0", sr |-> TRUE]>>, inhibit |-> FALSE, windows |-> << >>, wait |-> 0, maxwait |-> 0, agc |-> 0]
+           /\ ver = << >> /\ sil = << >> /\ last = << >> /\ brk = << >> /\ fl = << >> /\ cancd = [seen |-> {}, dead |-> << >>, deadgk |-> {}, refl |-> {}, ing |-> << >>, mby |-> << >>, lastReload |-> 0 - 1]
            /\ elig = << >> /\ chk = {}
 
 \* eligibility clocks (C01), recomputed at every step for the new instant
-Eligible(a, gk, i, t, v, s) ==
-  /\ a \in DOMAIN v /\ t < v[a].end
+\* nothing keeps a notification about a from being delivered to integration i of group gk at t
+Open(a, gk, i, t, v, s) ==
   /\ ~\E j \in 1..Len(s) : SilActive(s[j], t) /\ SilMatches(s[j].ms, a)
   /\ ~(cfg.inhibit /\ Lbl[a].sev = "warn" /\
        \E x \in Alerts : Lbl[x].sev = "crit" /\ Lbl[x].g = Lbl[a].g /\ x \in DOMAIN v /\ t < v[x].end)
   /\ ~Failing(Opt(gk).recv, i, t)
   /\ ~MayMuted(gk, t)
+Eligible(a, gk, i, t, v, s) == a \in DOMAIN v /\ t < v[a].end /\ Open(a, gk, i, t, v, s)
+\* C05: the alert has resolved and its resolution could be delivered
+Reportable(a, gk, i, t, v, s) == a \in DOMAIN v /\ t >= v[a].end /\ Open(a, gk, i, t, v, s)
+\* clocks: <<a, gk, i>> since when continuously eligible; <<a, gk, i, "r">> since when continuously
+\* resolved and reportable (-1: not)
 EligNext(t, v, s) ==
-  [p \in EligDom |->
-     IF Eligible(p[1], p[2], p[3], t, v, s) THEN (IF p \in DOMAIN elig /\ elig[p] >= 0 THEN elig[p] ELSE t) ELSE -1]
+  [p \in EligDom \cup {<<q[1], q[2], q[3], "r">> : q \in EligDom} |->
+     IF (IF Len(p) = 3 THEN Eligible(p[1], p[2], p[3], t, v, s) ELSE Reportable(p[1], p[2], p[3], t, v, s))
+       THEN (IF p \in DOMAIN elig /\ elig[p] >= 0 THEN elig[p] ELSE t) ELSE -1]
 
 \* C01: an alert continuously eligible for longer than the bound is listed as
 \* firing by the latest successful notification of its group to that integration
 C01_Deadline ==
-  \A p \in DOMAIN elig :
+  \A p \in {q \in DOMAIN elig : Len(q) = 3} :
      LET k == <<p[2], p[3]>>
          \* the omission lasts since the alert became eligible or since the latest notification
          \* (which omits it) was delivered, whichever is later
          since == IF k \in DOMAIN last /\ last[k].t > elig[p] THEN last[k].t ELSE elig[p]
      IN (elig[p] >= 0 /\ now - since > Bound(p[2])) => (k \in DOMAIN last /\ p[1] \in last[k].firing)
 
+\* C05: resolution is reported promptly - an alert the receiver was told is firing, that has
+\* been resolved and reportable from the moment it resolved for longer than the bound, is no
+\* longer listed as firing by the latest notification.  Not demanded where a listed finding or
+\* the alert store's garbage collection applies: the log entry expires 2 x repeat_interval after
+\* the last notification (F8); a dispatcher started by a reload does not see an alert the
+\* provider collected between its resolution and the reload.
+GcTickIn(x, y) == cfg.agc > 0 /\ ((y + 1000) \div cfg.agc) # ((x - 1000) \div cfg.agc)
+C05_Deadline ==
+  \A p \in {q \in DOMAIN elig : Len(q) = 4} :
+     LET k == <<p[2], p[3]>>
+         a == p[1]
+         since == IF last[k].t > elig[p] THEN last[k].t ELSE elig[p]
+     IN ~( /\ elig[p] >= 0 /\ a \in DOMAIN ver /\ elig[p] = ver[a].end
+           /\ k \in DOMAIN last /\ SrOf(p[2], p[3]) /\ a \in last[k].firing
+           /\ now - since > Bound(p[2])
+           /\ since + Bound(p[2]) < last[k].t + 2 * Opt(p[2]).ri
+           /\ ~(cancd.lastReload >= ver[a].end /\ GcTickIn(ver[a].end, cancd.lastReload)) )
+
 (* --- environment events ------------------------------------------------ *)
 Cfg(c) ==
-  /\ cfg' = c /\ now' = 0 /\ ver' = << >> /\ sil' = << >> /\ last' = << >> /\ brk' = << >> /\ fl' = << >> /\ cancd' = [seen |-> {}, dead |-> << >>, deadgk |-> {}, refl |-> {}, ing |-> << >>, mby |-> << >>]
+  /\ cfg' = c /\ now' = 0 /\ ver' = << >> /\ sil' = << >> /\ last' = << >> /\ brk' = << >> /\ fl' = << >> /\ cancd' = [seen |-> {}, dead |-> << >>, deadgk |-> {}, refl |-> {}, ing |-> << >>, mby |-> << >>, lastReload |-> 0 - 1]
   /\ elig' = << >> /\ chk' = {}
 
 Ingest(a, v) ==
@@ -279,11 +303,11 @@ FlushBegin(ag, gk, as, tick) ==
                                 \* ing: the first hand-over for the group key since its last flush began
                                 !.ing = Drop(@, {gk}),
                                 !.mby = LET allInh == names # {} /\ \A a \in names \cap Alerts : InhibitedAt(a, now)
-                                            prev == IF gk \in DOMAIN @ THEN @[gk] ELSE [cur |-> {}, prev |-> {}, t |-> now, known |-> FALSE, stale |-> FALSE]
+                                            prev == IF gk \in DOMAIN @ THEN @[gk] ELSE [cur |-> {}, prev |-> {{}}, t |-> now, known |-> FALSE, stale |-> FALSE]
                                         IN \* the time stages run after the inhibition stage: they are skipped
                                            \* when that one leaves nothing (the marker keeps its old value)
                                            IF allInh THEN Put(@, gk, [prev EXCEPT !.stale = prev.known /\ prev.cur # MutedByAt(gk, tick)])
-                                           ELSE Put(@, gk, [cur |-> MutedByAt(gk, tick), prev |-> prev.cur, t |-> now,
+                                           ELSE Put(@, gk, [cur |-> MutedByAt(gk, tick), prev |-> {prev.cur, {}}, t |-> now,
                                                             known |-> MutedByAt(gk, tick) = MutedByAt(gk, now), stale |-> FALSE])]
      /\ brk' = [k \in DOMAIN brk |->
                   brk[k] \/ (k[1] = gk /\ ~\E a \in FiringOf(as) : ~SuppressedAt(a, now))]
@@ -440,7 +464,7 @@ Cancelling ==
   /\ cancd' = [seen |-> cancd.seen,
                dead |-> [x \in DOMAIN cancd.dead \cup cancd.seen \cup DOMAIN fl |->
                            IF x \in DOMAIN cancd.dead THEN cancd.dead[x] ELSE now],
-               deadgk |-> cancd.deadgk \cup {fl[x].gk : x \in DOMAIN fl}, refl |-> cancd.refl, ing |-> cancd.ing, mby |-> cancd.mby]
+               deadgk |-> cancd.deadgk \cup {fl[x].gk : x \in DOMAIN fl}, refl |-> cancd.refl, ing |-> cancd.ing, mby |-> cancd.mby, lastReload |-> cancd.lastReload]
   /\ fl' = << >>
   /\ chk' = {}
   /\ UNCHANGED <<now, cfg, ver, sil, last, brk, elig>>
@@ -455,7 +479,8 @@ Reloading(integs) ==
                \* the new dispatcher creates its groups from the provider's alerts right now
                ing |-> [g \in DOMAIN cancd.ing \cup UNION {GKeys(a) : a \in DOMAIN ver} |->
                           IF g \in DOMAIN cancd.ing THEN cancd.ing[g] ELSE now],
-               mby |-> cancd.mby]
+               \* the marker of a stopped dispatcher's group may be gone or still there
+               mby |-> [g \in DOMAIN cancd.mby |-> [cancd.mby[g] EXCEPT !.known = FALSE]], lastReload |-> now]
   /\ fl' = << >>
   /\ cfg' = [cfg EXCEPT !.integs = integs]
   /\ elig' = [p \in {q \in DOMAIN elig : \E x \in SeqToSet(integs) : x.recv = Opt(q[2]).recv /\ x.name = q[3]} |-> elig[p]]
@@ -529,7 +554,7 @@ ApiGroups(list) ==
                    /\ gk \in DOMAIN cancd.mby /\ cancd.mby[gk].known /\ ~cancd.mby[gk].stale
                    /\ gk \notin DOMAIN cancd.ing
                    /\ SeqToSet(list[j].mutedby) # cancd.mby[gk].cur
-                   /\ ~(cancd.mby[gk].t = now /\ SeqToSet(list[j].mutedby) = cancd.mby[gk].prev)
+                   /\ ~(cancd.mby[gk].t = now /\ SeqToSet(list[j].mutedby) \in cancd.mby[gk].prev)
                 THEN {"C15_api_muted_state_differs"} ELSE {})
   IN /\ chk' = bad
      /\ UNCHANGED <<now, cfg, ver, sil, last, brk, fl, cancd, elig>>
